@@ -165,7 +165,9 @@ def t_change_target(E):
 
 
 @task("smc.sp_interface", props=["C26", "C04"], functions=FUNCS + [
-    SMC + ":SMCAlgorithm.random_weighted", SMC + ":SMCAlgorithm.estimate_logpdf", SMC + ":ParticleCollection.sample_particle"])
+    SMC + ":SMCAlgorithm.random_weighted", SMC + ":SMCAlgorithm.estimate_logpdf", SMC + ":ParticleCollection.sample_particle",
+    SMC + ":ChangeTarget.run_csmc", SMC + ":ChangeTarget.get_num_particles", SMC + ":ChangeTarget.get_final_target",
+    SMC + ":ParticleCollection.get_particles", SMC + ":ParticleCollection.get_log_weights"])
 def t_sp_interface(E):
     """SMCAlgorithm.random_weighted / estimate_logpdf (the SampleDistribution face of an SMC algorithm), for an arbitrary
     algorithm `prev` (abstract run_smc / run_csmc, K particles, its own final target) and a target handed in at the call whose
